@@ -612,6 +612,32 @@ def check_single(case, ctx):
         ctx.check(diff3 is None, "single_repeatable:int", diff3)
     decided = check_repetitions(ctx, "single", dists, d1["empi"], case["num_data"])
     ctx.nontrivial(decided)
+    # the SAME setting object used again after its testers were exchanged (recalibrated testers, in reversed order): the
+    # tomography generated from it is that of the testers it holds now
+    true_obj = setting.true_object
+    p_before = [np.asarray(x, dtype=float) for x in qt.calc_prob_dists(true_obj)]
+    setting.tester_objects = list(setting.tester_objects)[::-1]
+    qt2 = sim.generate_qtomography(setting, para=tc["flag"], init_with_seed=case["init_with_seed"])
+    p_after = [np.asarray(x, dtype=float) for x in qt2.calc_prob_dists(true_obj)]
+    kind = tc["tomo"]
+    if kind in ("qst", "povmt"):
+        want = p_before[::-1]
+    else:  # states + povms reversed -> povm-like objects first is rejected or re-sorted by type: compare as multisets
+        want = None
+    if want is not None and len(p_after) == len(want):
+        ok_rev = all(a.shape == b.shape and float(np.max(np.abs(a - b))) <= 1e-12 for a, b in zip(p_after, want))
+        ctx.check(ok_rev, "reused_setting:tomography_follows_current_testers",
+                  "generate_qtomography on the same setting object after its testers were reversed still has the old order")
+        ctx.label("setting-reused-with-other-testers")
+    if case["init_with_seed"] and kind in ("qst", "povmt"):
+        # generating the tomography with init_with_seed seeds the global stream each time: seed-less data are repeatable
+        qa = sim.generate_qtomography(setting, para=tc["flag"], init_with_seed=True)
+        da = qa.generate_empi_dists_sequence(true_obj, [7, 19])
+        qb = sim.generate_qtomography(setting, para=tc["flag"], init_with_seed=True)
+        db = qb.generate_empi_dists_sequence(true_obj, [7, 19])
+        same = all(int(x[0]) == int(y[0]) and np.array_equal(np.asarray(x[1]), np.asarray(y[1]))
+                   for ra, rb in zip(da, db) for x, y in zip(ra, rb))
+        ctx.check(same, "init_with_seed:seedless_data_repeatable_after_regenerating_the_tomography")
 
 
 # ============================================================================= independent repetitions (flows)
